@@ -1103,12 +1103,15 @@ class PDFCIDFont(PDFFont):
                 raise PDFFontError("BaseFont is missing")
             self.basefont = "unknown"
         self.cidsysteminfo = dict_value(spec.get("CIDSystemInfo", {}))
-        cid_registry = resolve1(self.cidsysteminfo.get("Registry", b"unknown")).decode(
-            "latin1",
-        )
-        cid_ordering = resolve1(self.cidsysteminfo.get("Ordering", b"unknown")).decode(
-            "latin1",
-        )
+        def info_string(key: str) -> str:
+            value = resolve1(self.cidsysteminfo.get(key, b"unknown"))
+            if not isinstance(value, bytes):
+                # not a string: an unknown collection
+                value = b"unknown"
+            return value.decode("latin1")
+
+        cid_registry = info_string("Registry")
+        cid_ordering = info_string("Ordering")
         self.cidcoding = f"{cid_registry.strip()}-{cid_ordering.strip()}"
         self.cmap: CMapBase = self.get_cmap_from_spec(spec, strict)
 
